@@ -61,7 +61,13 @@ def jobs_for(src, width, tab, reorder):
     joined = src.replace('\n', ' ')
     others = ['c:%s:%d:%d:%d' % (h, w, t, r) for (w, t, r) in ((0, 2, 0), (120, 2, 0), (80, 4, 0), (80, 2, 1), (40, 8, 1), (1, 1, 1))]
     others += ['w:%s:%d' % (h, w) for w in (0, 120)]
-    for v in (swapped, joined, src.replace(', ', ',\n'), src.replace('(', '(\n', 1)):
+    variants = [swapped, joined, src.replace(', ', ',\n'), src.replace('(', '(\n', 1)]
+    # the same shape with one identifier renamed (same node numbering, another name at one place): state keyed by position leaks through these
+    import re as _re
+    idents = [mm for mm in _re.finditer(r'[A-Za-z_][A-Za-z0-9_-]*', src)]
+    for mm in idents[:10]:
+        variants.append(src[:mm.start()] + 'q' * len(mm.group(0)) + src[mm.end():])
+    for v in variants:
         if v != src:
             others.append('c:%s:%d:%d:%d' % (hexs(v), width, tab, reorder))
     fixed = ['// @typstyle off\n#f( 1 ,2 )\n', '#f(a,\n b)\n#g(/* c */ x)\n', '#import "m.typ": c, b, a\n', '#table(columns: 3, [a], [b], [c], [d])\n',
@@ -130,7 +136,7 @@ def schedule_differential(S, src, width=80, tab=2, reorder=0, api='c'):
     return None
 
 
-NATIVE_CORPUS = ['#import "a.typ": c, B, b, a, A, C\n', '#import "m.typ": aasb, a as b, x.y as z, x.yasz\n', '#f(a, b)\n', '#import "a.typ": c, b, a\n', '// @typstyle off\n#f( 1 ,2 )\n\n#f( 1 ,2 )\n', '#table(columns: 2, [a], [b], [c], [d])\n',
+NATIVE_CORPUS = ['#table(columns: 2, table.header[a][b], [c], [d], [e])\n', '#grid(columns: 2, grid.cell[a], [b], f(x)[c])\n', '#import "a.typ": c, B, b, a, A, C\n', '#import "m.typ": aasb, a as b, x.y as z, x.yasz\n', '#f(a, b)\n', '#import "a.typ": c, b, a\n', '// @typstyle off\n#f( 1 ,2 )\n\n#f( 1 ,2 )\n', '#table(columns: 2, [a], [b], [c], [d])\n',
                  '#{\n  let a = f(1, 2)\n  a.b.c(d).e\n}\n', '$ f(a, b; c, d) $\n', '= H\n- a\n  + b\n']
 
 
@@ -191,7 +197,8 @@ def run(S):
                           'AttrStore::new + convert_expr on the %s node parsed from %r reach no state outside the call, for every context / configuration' % (kind, src_text[:60]),
                           body, dict(kind=kind, nodes=conserve.size_of(tree))))
     # (3) small whole documents
-    docs = C17_DOCS + deep.DOCS + deep.PROSE + deep.OFF_DOCS + deep.CODE_DOCS + deep.EMBED_DOCS
+    from . import reparse
+    docs = C17_DOCS + reparse.TABLE_DOCS + reparse.BLOCK_DOCS + reparse.MISC_DOCS + reparse.EVAL_DOCS + deep.DOCS + deep.PROSE + deep.OFF_DOCS + deep.CODE_DOCS + deep.EMBED_DOCS + reparse.corpus_docs(S)
     ndocs = 0
     for src in docs:
         tree = deep.tree_of(S, src)
